@@ -12,7 +12,15 @@ import (
 func init() { drivers["C15"] = runC15 }
 
 func c15Message(r *gal.Rng, i int) (msg string, zh bool) {
-	switch r.Intn(6) {
+	switch r.Intn(10) {
+	case 6: // a single byte
+		return r.Pick([]string{"x", "?", "!", "7"}), false
+	case 7: // a Chinese message that quotes the English label
+		return fmt.Sprintf("标%d 见 explain: 内文", i), true
+	case 8: // an English message that repeats its own label, and one with the separator's first byte
+		return fmt.Sprintf("M%d see explain: inner;", i), false
+	case 9: // one CJK character
+		return r.Pick([]string{"错", "必"}), true
 	case 0:
 		return fmt.Sprintf("M%d must be ok", i), false
 	case 1:
@@ -56,14 +64,27 @@ func runC15(c *Ctx) error {
 		{"ip", "abc", "abc"}, {"ipv4", "abc", "abc"}, {"ipv6", "abc", "abc"}, {"unique", "a,a", "a,a"}, {"json", "{", "{"}, {"prefix=zz", "abc", "abc"},
 		{"suffix=zz", "abc", "abc"}, {"required", "", ""},
 	}
-	for i := 0; i < n; i++ {
+	// directed: every rule x every special message shape (one byte, quotes, the labels themselves, separator bytes)
+	type sm struct {
+		msg string
+		zh  bool
+	}
+	specials := []sm{{"x", false}, {"?", false}, {"错", true}, {"it's wrong", false}, {"'q'", false}, {"数字'0-9'", true}, {"见 explain: 内文", true},
+		{"see explain: inner", false}, {"a=b", false}, {"(x)", false}, {"m;", false}, {"ends with blank ", false}}
+	for i := 0; i < n+len(violated)*len(specials); i++ {
 		x := violated[r.Intn(len(violated))]
 		msg, zh := c15Message(r, i)
+		if i >= n {
+			j := i - n
+			x = violated[j/len(specials)]
+			sp := specials[j%len(specials)]
+			msg, zh = sp.msg, sp.zh
+		}
 		if x.rule == "ints" || x.rule == "unique" || strings.Contains(msg, ",") && !strings.Contains(msg, "'") {
 			// keep commas of the message inside quotes (documented)
 		}
 		text := x.rule + "|" + msg
-		withMsg := r.Chance(75)
+		withMsg := r.Chance(75) || i >= n
 		if !withMsg {
 			text = x.rule
 		}
@@ -153,6 +174,9 @@ func runC15(c *Ctx) error {
 		case "zh":
 			pre := fmt.Sprintf(`"T.F%d" input "v%d", `, i, i)
 			msg := fmt.Sprintf("标%d 中文说明", i)
+			if i%3 == 1 {
+				msg = fmt.Sprintf("标%d 见 explain: 内文", i) // quotes the other label
+			}
 			return pre + valid.ExplainZh + " " + msg, galSClause(pre, valid.ExplainZh, msg, true)
 		case "en":
 			pre := fmt.Sprintf(`"T.F%d" input "v%d", `, i, i)
